@@ -23,6 +23,7 @@ func init() { register("c16", cmdC16) }
 
 type pluginScript struct {
 	Name      string            `json:"name"`
+	Inst      string            `json:"inst,omitempty"` // the same plugin asked for more than once: instance label
 	ReplyName string            `json:"replyName,omitempty"`
 	Hs        string            `json:"hs"`
 	Gen       string            `json:"gen"`
@@ -44,10 +45,24 @@ type pluginCase struct {
 	Pre     [][]string        `json:"pre,omitempty"`    // cli mode: earlier runs (extra args each, no plugins) whose output is already in place
 }
 
+func (p pluginScript) key() string {
+	if p.Inst != "" {
+		return p.Name + "#" + p.Inst
+	}
+	return p.Name
+}
+
+func (p pluginScript) args() []string {
+	if p.Inst != "" {
+		return []string{"--inst=" + p.Inst}
+	}
+	return nil
+}
+
 func installPlugins(dir, fake string, ps []pluginScript) error {
 	for _, p := range ps {
 		b, _ := json.Marshal(p)
-		if err := os.WriteFile(filepath.Join(dir, p.Name+".script.json"), b, 0644); err != nil {
+		if err := os.WriteFile(filepath.Join(dir, p.key()+".script.json"), b, 0644); err != nil {
 			return err
 		}
 		dst := filepath.Join(dir, "thriftrw-plugin-"+p.Name)
@@ -118,7 +133,7 @@ func runInproc(c pluginCase, fake string, o wj.J) {
 	var flags verifhook.PluginFlags
 	var cmds []*exec.Cmd
 	for _, p := range c.Plugins {
-		cmd := exec.Command(filepath.Join(dir, "thriftrw-plugin-"+p.Name))
+		cmd := exec.Command(filepath.Join(dir, "thriftrw-plugin-"+p.Name), p.args()...)
 		cmd.Env = append(os.Environ(), "FAKEPLUGIN_DIR="+dir)
 		cmd.Stderr = os.Stderr
 		cmds = append(cmds, cmd)
@@ -174,7 +189,7 @@ func runInproc(c pluginCase, fake string, o wj.J) {
 	o["failed"] = openErr != nil || genErr != nil || closeErr != nil
 	var per []wj.J
 	for i, p := range c.Plugins {
-		per = append(per, wj.J{"name": p.Name, "events": readPluginLog(dir, p.Name), "reaped": cmds[i].ProcessState != nil,
+		per = append(per, wj.J{"name": p.Name, "events": readPluginLog(dir, p.key()), "reaped": cmds[i].ProcessState != nil,
 			"started": cmds[i].Process != nil, "named": mentions(all, p.Name, dir)})
 	}
 	o["per"] = per
@@ -220,7 +235,7 @@ func runCLI(c pluginCase, fake, thriftrw string, o wj.J) {
 	before := listTree(filepath.Join(sandbox, "work"))
 	args := []string{"--out", outDir, "--pkg-prefix", "example.com/gen", "--no-version-check"}
 	for _, p := range c.Plugins {
-		args = append(args, "--plugin", p.Name)
+		args = append(args, "--plugin", strings.Join(append([]string{p.Name}, p.args()...), " "))
 	}
 	args = append(args, c.Args...)
 	args = append(args, filepath.Join(sandbox, "work", root))
@@ -286,9 +301,16 @@ func runCLI(c pluginCase, fake, thriftrw string, o wj.J) {
 		}
 	}
 	o["created_outside"] = nz(outside)
+	var rel []string
+	for _, p := range created {
+		if strings.HasPrefix(p, outRel+"/") {
+			rel = append(rel, strings.TrimPrefix(p, outRel+"/"))
+		}
+	}
+	o["created_rel"] = nz(rel)
 	var per []wj.J
 	for _, p := range c.Plugins {
-		per = append(per, wj.J{"name": p.Name, "events": readPluginLog(pdir, p.Name), "reaped": true, "started": true,
+		per = append(per, wj.J{"name": p.Name, "events": readPluginLog(pdir, p.key()), "reaped": true, "started": true,
 			"named": mentions(stderr.String(), p.Name, pdir)})
 	}
 	if per == nil {
@@ -403,7 +425,7 @@ func cmdC16(args []string) error {
 		}
 		o := wj.J{"op": "c16", "id": pc.ID, "mode": pc.Mode, "case": m, "panic": "", "setup": "", "hung": false, "failed": false,
 			"per": []wj.J{}, "openerr": "", "generr": "", "closeerr": "", "genfiles": []string{}, "code": 0, "stderr": "",
-			"created": []string{}, "modified": []string{}, "deleted": []string{}, "escaped": []string{}, "outrel": "out", "created_outside": []string{}}
+			"created": []string{}, "modified": []string{}, "deleted": []string{}, "escaped": []string{}, "outrel": "out", "created_outside": []string{}, "created_rel": []string{}}
 		inf.set(raw)
 		o["panic"] = safelyLong(func() {
 			if pc.Mode == "cli" {
